@@ -220,6 +220,8 @@ pub struct Monitors {
     pub equivocation: bool,
     pub step_invariants: bool,
     pub caches: bool,
+    /// Reference-model oracle.
+    pub model: bool,
 }
 
 /// Classification of a finished run.
@@ -241,6 +243,7 @@ pub struct RunInfo {
     pub absurd_msgs: usize,
     pub variants: usize,
     pub forged: usize,
+    pub model_compared: u64,
     pub kinds_matrix: std::collections::BTreeSet<String>,
 }
 
